@@ -570,3 +570,12 @@ def r05_12(ctx):
 
     r06_4(ctx)
     r06_6(ctx)
+
+
+@rule("R05.13", "C05", "a later statement sees what an earlier one wrote: read-write operands (single and pair) are read afresh at every mention, and `x++` / `x--` update the variable in its own width", min_instances=10)
+def r05_13(ctx):
+    from .c03 import postfix_node_typing
+    from .c12 import r12_5
+
+    r12_5(ctx)
+    postfix_node_typing(ctx)
